@@ -28,6 +28,8 @@ def worker_init():
     c05.worker_init()
     global X, H, M
     X, H, M = c05.X, c05.H, c05.M
+    from vf.x86 import explore as E
+    E.worker_init()
 
 
 # -------------------------------------------------------------------------------------------------
@@ -203,8 +205,133 @@ def jobs(tier, seed):
         sh = G.c05_shapes('quick', seed) + [s for s in G.depth2(32)[::7]]
         sh = list(dict.fromkeys(G.renumber(s) for s in sh))
     idem = [('idem', s, None) for s in sh]
-    allj = perm_jobs + idem
-    return [('chunk', tier, allj[i:i + CHUNK]) for i in range(0, len(allj), CHUNK)]
+    # (ii) inside an embedding context: the operands of the commutative node sit in a memory address, a segment selector, a
+    # condition, a slice, a non-commutative operation, a concatenation (canonical form must not depend on where the node sits)
+    ctx_jobs = []
+    w32 = [j for j in perm_jobs if G.width(j[1]) == 32]
+    rnd.shuffle(w32)
+    per_ctx = 6 if tier == 'quick' else 40
+    for ci, ctx in enumerate(sorted(CONTEXTS)):
+        for j in w32[ci * per_ctx:(ci + 1) * per_ctx]:
+            ctx_jobs.append(('perm@' + ctx, j[1], j[2][:4 if tier == 'quick' else 12]))
+    allj = perm_jobs + ctx_jobs + idem
+    return [('chunk', tier, allj[i:i + CHUNK]) for i in range(0, len(allj), CHUNK)] + lifted_jobs(tier, seed)
+
+
+def _ctx_table():
+    return {
+        'addr': lambda e, n: X.ExprMem(e, 32),
+        'segm': lambda e, n: X.ExprMem(X.ExprId('p', 32), 32, e),
+        'cond': lambda e, n: X.ExprCond(e, X.ExprId('a', n), X.ExprId('b', n)),
+        'slice': lambda e, n: X.ExprSlice(e, 0, 8),
+        'sub': lambda e, n: X.ExprOp('-', X.ExprId('zz', n), e),
+        'compose': lambda e, n: X.ExprCompose([(X.ExprSlice(e, 0, 16), 0, 16), (X.ExprId('hh', 16), 16, 32)]),
+    }
+
+
+CONTEXTS = ('addr', 'segm', 'cond', 'slice', 'sub', 'compose')
+
+
+def wrap(ctx, e):
+    if not ctx:
+        return e
+    return _ctx_table()[ctx](e, e.get_size())
+
+
+def lifted_jobs(tier, seed):
+    """(i) on lifted semantics: the source expressions the real lifter builds for integer-core instructions decoded from
+    symbolic bytes (immediates / displacements symbolic)"""
+    from vf.x86 import explore as E
+    from vf.x86spec import sem as SPEC
+    if E.A is None:
+        common.env_setup()
+        E.worker_init()
+    out = []
+    for ej in E.make_jobs(tier, seed, prefix_sets=[()] if tier == 'quick' else [(), (0x66,)], sib='min', per_signature=(tier == 'quick')):
+        prefixes, opc, last, sibmode, rowname = ej
+        node = E.A.x86mndb.db_mnemo
+        for b in opc:
+            node = node[b]
+        ms = [x for x in node if x is not None] if last is None else [node[last[0]]]
+        if any(isinstance(x, E.A.mnemonic) and SPEC.in_core(x.name) for x in ms):
+            out.append(('lifted', tier, ej))
+    return out
+
+
+def _lifted(ejob, res, tier):
+    from vf.x86 import explore as E
+    from vf.checks import c11
+    import miasmx.arch.ia32_sem as SEM
+    import miasmx.tools.emul_helper as EH
+    c11.SEM, c11.X = SEM, X
+    prefixes, opc, last, sibmode, rowname = ejob
+    title = 'lifted %s|%s%s %s' % (' '.join('%02x' % p for p in prefixes), ' '.join('%02x' % b for b in opc), '' if last is None else ' {%02x..}' % last[0], rowname)
+    seen = set()
+
+    def on_path(eng, d):
+        if d.kind != 'ok':
+            return ('SKIP',)
+        i = d.instr
+        name = i.m.name
+        if name not in SEM.mnemo_func:
+            return ('SKIP',)
+        c11.reset_singletons()
+        try:
+            affs = EH.get_instr_expr(i, X.ExprInt(M.uint32(i.l)), [])
+        except PathAbort:
+            raise
+        except Exception:
+            return ('SKIP',)            # C11's subject
+        n = 0
+        for k, a in enumerate(affs):
+            if not isinstance(a, X.ExprAff):
+                continue
+            try:
+                r = H.expr_simp(a.src)
+                r2 = H.expr_simp(r.copy())
+            except PathAbort:
+                raise
+            except Exception:
+                continue                # C05's subject
+            n += 1
+            eq = struct_eq(r2, r)
+            if eq is True:
+                continue
+            m = None
+            if eq is not False:
+                st, m = eng.find(z3.Not(eq))
+                if st == 'unsat':
+                    continue
+                if st != 'sat':
+                    return ('ABORT', 'unknown')
+            return ('CEX', 'idem-lifted:%s:%s' % (name, a.dst if isinstance(a.dst, X.ExprId) else 'mem'),
+                    '%s: simp(simp(e)) != simp(e) for the source of %s' % (name, a.dst), E.witness_bytes(eng, d, m)[:i.l], k)
+        return ('OK', n)
+    eng, rs = E.explore(ejob, on_path, max_paths=20000, max_seconds=300 if tier == 'quick' else 900)
+    res['paths'] += eng.stats['paths']
+    res['queries'] += eng.stats['queries']
+    res['solver_s'] += eng.stats['solver_s']
+    for u in eng.unexplored:
+        res['inconclusive'].append('%s: %s' % (title, u))
+    ok = 0
+    for r in rs:
+        if r[0] == 'OK':
+            ok += 1
+            res['obligations'] += r[1]
+            res['proved'] += r[1]
+        elif r[0] == 'CEX':
+            res['obligations'] += 1
+            if r[1] not in seen:
+                seen.add(r[1])
+                res['candidates'].append({'key': r[1], 'desc': r[2] + ' e.g. ' + ' '.join('%02x' % b for b in r[3]), 'data': {'kind': 'lifted', 'bytes': list(r[3]), 'idx': r[4]}})
+        elif r[0] == 'SKIP':
+            pass
+        else:
+            res['inconclusive'].append('%s: %s' % (title, r[1] if len(r) > 1 else r[0]))
+    if ok:
+        res['nontrivial'] += 1
+        if len(res['samples']) < 1:
+            res['samples'].append({'row': title, 'paths': len(rs), 'verdict': 'expr_simp is idempotent on every lifted source expression of %d path(s), immediates symbolic' % ok})
 
 
 def _renumber_pair(base, rest):
@@ -216,12 +343,16 @@ def run_job(job):
     _, tier, items = job
     res = {'paths': 0, 'queries': 0, 'solver_s': 0.0, 'obligations': 0, 'proved': 0, 'candidates': [],
            'inconclusive': [], 'samples': [], 'programs': 0, 'nontrivial': 0}
+    if job[0] == 'lifted':
+        res['programs'] = 1
+        _lifted(items, res, tier)
+        return res
     for kind, base, rest in items:
         res['programs'] += 1
         if kind == 'idem':
             _idem(base, res, tier)
         else:
-            _perm(base, rest, res, tier)
+            _perm(base, rest, res, tier, kind.partition('@')[2])
     return res
 
 
@@ -257,7 +388,7 @@ def _idem(shape, res, tier):
     _collect(eng, fn, res, name, {'shape': shape, 'kind': 'idem'}, 'idem:' + c05.rule_class(shape) + ':w%d' % G.width(shape))
 
 
-def _perm(base, rest, res, tier):
+def _perm(base, rest, res, tier, ctx=''):
     # constants: each 'int' leaf in base keeps index by its *operand identity*; since variants permute the
     # same operand tuples, renumbering each variant independently would decouple them.  We number leaves
     # of the base by operand position and carry the numbering through the permutation.
@@ -267,7 +398,7 @@ def _perm(base, rest, res, tier):
 
     def fn(eng):
         consts = _consts_for(nb)
-        e = G.build(nb, consts, X, M)
+        e = wrap(ctx, G.build(nb, consts, X, M))
         try:
             r = H.expr_simp(e)
         except PathAbort:
@@ -275,7 +406,7 @@ def _perm(base, rest, res, tier):
         except Exception:
             return ('SKIP',)
         for v in nrest:
-            e2 = G.build(v, consts, X, M)
+            e2 = wrap(ctx, G.build(v, consts, X, M))
             try:
                 r2 = H.expr_simp(e2)
             except PathAbort:
@@ -293,7 +424,8 @@ def _perm(base, rest, res, tier):
             if st != 'unsat':
                 return ('UNKNOWN',)
         return ('OK',)
-    _collect(eng, fn, res, name, {'shape': nb, 'kind': 'perm'}, 'perm:' + c05.rule_class(nb) + ':w%d' % G.width(nb))
+    _collect(eng, fn, res, name + (' in context ' + ctx if ctx else ''), {'shape': nb, 'kind': 'perm', 'ctx': ctx},
+             'perm:' + c05.rule_class(nb) + ':w%d' % G.width(nb) + ('@' + ctx if ctx else ''))
 
 
 def number_operands(base, rest):
@@ -384,7 +516,10 @@ from miasmx.expression.expression_helper import expr_simp
 from vf.gen import shapes as G
 D = %(data)r
 consts = {int(k[1:]): v for k, v in D['consts'].items()}
-e = G.build(D['shape'], consts, X, M)
+from vf.checks import c13
+c13.X = X
+ctx = D.get('ctx', '')
+e = c13.wrap(ctx, G.build(D['shape'], consts, X, M))
 bad = False
 try:
     r = expr_simp(e)
@@ -393,8 +528,8 @@ try:
         print('simp(e)        =', r); print('simp(simp(e))  =', r2)
         bad = not (r2 == r) or str(r2) != str(r)
     else:
-        e2 = G.build(D['variant'], consts, X, M)
-        print('e  =', G.build(D['shape'], consts, X, M)); print('e2 =', e2)
+        e2 = c13.wrap(ctx, G.build(D['variant'], consts, X, M))
+        print('e  =', e); print('e2 =', e2)
         try:
             r2 = expr_simp(e2)
             print('simp(e)  =', r); print('simp(e2) =', r2)
@@ -408,7 +543,26 @@ sys.exit(1 if bad else 0)
 '''
 
 
+REPLAY_LIFTED = r'''
+# replay of a C13 counterexample (idempotence of expr_simp on lifted semantics) on the real code (exit 1 = violated)
+import sys
+from miasmx.arch.ia32_arch import x86mnemo
+import miasmx.tools.emul_helper as EH, miasmx.expression.expression as X, miasmx.tools.modint as M
+from miasmx.expression.expression_helper import expr_simp
+D = %(data)r
+i = x86mnemo.dis(bytes(D['bytes']) + b'\x90' * 4)
+a = EH.get_instr_expr(i, X.ExprInt(M.uint32(i.l)), [])[D['idx']]
+r = expr_simp(a.src); r2 = expr_simp(r.copy())
+print(str(i).strip(), ':', a.dst); print('simp(e)       =', r); print('simp(simp(e)) =', r2)
+bad = not (r2 == r) or str(r2) != str(r)
+print('C13 replay:', 'VIOLATED' if bad else 'holds')
+sys.exit(1 if bad else 0)
+'''
+
+
 def make_replay(cnd):
+    if cnd['data'].get('kind') == 'lifted':
+        return REPLAY_LIFTED % {'data': cnd['data']}
     return REPLAY % {'data': cnd['data']}
 
 
@@ -417,8 +571,8 @@ def main(argv=None):
     t0 = time.time()
     js = jobs(a.tier, a.seed)
     if a.only:
-        js = [(k, t, [it for it in items if a.only in (it[0] + ' ' + G.show(it[1]))]) for k, t, items in js]
-        js = [j for j in js if j[2]]
+        js = [(j[0], j[1], [it for it in j[2] if a.only in (it[0] + ' ' + G.show(it[1]))]) if j[0] == 'chunk' else j for j in js]
+        js = [j for j in js if (j[2] if j[0] == 'chunk' else a.only in repr(j))]
     results, left = common.run_pool('vf.checks.c13', js, nproc=a.nproc, budget_s=1500 if a.tier == 'quick' else 5400)
     cov, cands, inconc, herr = c05.aggregate(results, left)
     cov['exhaustive'] = False
@@ -427,9 +581,9 @@ def main(argv=None):
     cov['functions_encoded'] = ['miasmx.expression.expression_helper:expr_simp/_expr_simp_w/_expr_simp/merge_sliceto_slice',
                                 'miasmx.expression.expression:canonize_expr_list/key_expr/key_expr_compose/copy/visit']
     cov['bounds'] = ('operands from a 10-element pool (ids, constants, negations, memory, shifts, cond), arity 2..4, '
-                     'permutations x {flat, left-nested, right-nested, balanced}; ' +
+                     'permutations x {flat, left-nested, right-nested, balanced}, also embedded in six contexts (memory address, segment selector, condition, slice, non-commutative operand, concatenation slot); ' +
                      ('sampled (seeded), widths 32 and 8' if a.tier == 'quick' else 'all arity-2/3 combinations at width 32, sampled elsewhere, widths 1..64') +
-                     '; idempotence over the C05 shapes; PYTHONHASHSEED clause not addressed')
+                     '; idempotence over the C05 shapes and over the source expressions of the lifted semantics of integer-core instructions decoded from symbolic bytes; PYTHONHASHSEED clause not addressed')
     if cov['proved'] == 0:
         herr.append('vacuous: nothing proved')
     assumptions = ['structural equality of outputs decided as a z3 formula over the symbolic constants', 'z3 5.1.0', 'SInt proxy',
